@@ -53,5 +53,73 @@ pub proof fn lemma_idle(b: B, t: int, d: int, limit: int)
     ensures legal(b, t, d, limit, true), // @cl:C13.history.idle_is_admissible
 {}
 
+// ---- the 2*limit bound over whole histories (this used to be a paper step) ------------------------------------------------
+/// one attempt of a key: its time and the limiter's verdict
+pub struct A { pub t: int, pub adm: bool }
+pub open spec fn run(b0: B, h: Seq<A>, d: int) -> B
+    decreases h.len()
+{ if h.len() == 0 { b0 } else { abs_step(run(b0, h.drop_last(), d), h.last().t, d, h.last().adm) } }
+pub open spec fn tmax(b0: B, h: Seq<A>) -> int { if h.len() == 0 { b0.w } else { h.last().t } }
+/// a history the limiter can produce: times do not decrease and every verdict is legal in the state it was given in
+pub open spec fn valid(b0: B, h: Seq<A>, d: int, limit: int) -> bool
+    decreases h.len()
+{
+    h.len() == 0 || (valid(b0, h.drop_last(), d, limit) && h.last().t >= tmax(b0, h.drop_last())
+        && legal(run(b0, h.drop_last(), d), h.last().t, d, limit, h.last().adm))
+}
+pub open spec fn hit(x: A, a: int, d: int) -> int { if x.adm && a <= x.t < a + d { 1 } else { 0 } }
+/// admissions inside the interval [a, a + d)
+pub open spec fn admitted_in(h: Seq<A>, a: int, d: int) -> int
+    decreases h.len()
+{ if h.len() == 0 { 0 } else { admitted_in(h.drop_last(), a, d) + hit(h.last(), a, d) } }
+/// ... split into those of the current window and those of earlier windows
+pub open spec fn cc(b0: B, h: Seq<A>, a: int, d: int) -> int
+    decreases h.len()
+{
+    if h.len() == 0 { 0 } else {
+        let bp = run(b0, h.drop_last(), d);
+        (if rolled(bp, h.last().t, d).w != bp.w { 0 } else { cc(b0, h.drop_last(), a, d) }) + hit(h.last(), a, d)
+    }
+}
+pub open spec fn cp(b0: B, h: Seq<A>, a: int, d: int) -> int
+    decreases h.len()
+{
+    if h.len() == 0 { 0 } else {
+        let bp = run(b0, h.drop_last(), d);
+        if rolled(bp, h.last().t, d).w != bp.w { cp(b0, h.drop_last(), a, d) + cc(b0, h.drop_last(), a, d) } else { cp(b0, h.drop_last(), a, d) }
+    }
+}
+pub open spec fn hist_inv(b0: B, h: Seq<A>, a: int, d: int, limit: int) -> bool {
+    let b = run(b0, h, d);
+    let (p, c) = (cp(b0, h, a, d), cc(b0, h, a, d));
+    inv(b, limit) && b.w <= tmax(b0, h) && 0 <= c <= b.n && 0 <= p
+    && admitted_in(h, a, d) == p + c
+    && (b.w < a + d ==> p <= limit) && (b.w < a ==> p == 0) && (tmax(b0, h) < a ==> c == 0)
+    && p + c <= 2 * limit
+}
+/// C13: never more than twice `limit` admissions of one key within any interval of length `duration`
+pub proof fn lemma_two_limit(b0: B, h: Seq<A>, a: int, d: int, limit: int)
+    requires inv(b0, limit), limit >= 1, d > 0, valid(b0, h, d, limit)
+    ensures
+        hist_inv(b0, h, a, d, limit),
+        admitted_in(h, a, d) <= 2 * limit, // @cl:C13.history.at_most_twice_limit_in_any_interval_of_length_duration
+    decreases h.len()
+{
+    if h.len() > 0 {
+        let hp = h.drop_last();
+        lemma_two_limit(b0, hp, a, d, limit);
+        let bp = run(b0, hp, d);
+        let x = h.last();
+        lemma_inv_preserved(bp, x.t, d, limit, x.adm);
+        let r = rolled(bp, x.t, d);
+        let b = run(b0, h, d);
+        assert(b == abs_step(bp, x.t, d, x.adm));
+        if r.w != bp.w {
+            // a new window starts at x.t, at least d after the previous start
+            assert(x.t - bp.w >= d);
+        }
+    }
+}
+
 } // verus!
 fn main() {}
